@@ -821,6 +821,8 @@ func (pc *PartitionContext) removeNodeAllocations(node *objects.Node) ([]*object
 				zap.String("nodeID", node.NodeID))
 			continue
 		}
+		// the request of the released allocation goes with it: the shim is told that the allocation is gone
+		_ = app.RemoveAllocationAsk(allocationKey)
 		if err := queue.DecAllocatedResource(alloc.GetAllocatedResource()); err != nil {
 			log.Log(log.SchedPartition).Warn("failed to release resources from queue",
 				zap.String("appID", alloc.GetApplicationID()),
@@ -1555,6 +1557,7 @@ func (pc *PartitionContext) removeAllocation(release *si.AllocationRelease) ([]*
 
 	released := pc.processAllocationRelease(release, app)
 	pc.updatePhAllocationCount(released)
+	allocRemoved := len(released) > 0
 
 	total := resources.NewResource()
 	totalPreempting := resources.NewResource()
@@ -1645,7 +1648,9 @@ func (pc *PartitionContext) removeAllocation(release *si.AllocationRelease) ([]*
 		released = nil
 	}
 
-	if release.TerminationType != si.TerminationType_TIMEOUT {
+	// a timeout for an ask that is not allocated originates in the core and is ignored, in every other case the request
+	// goes with the released allocation
+	if release.TerminationType != si.TerminationType_TIMEOUT || allocRemoved {
 		// an ask that is the real half of an inflight placeholder replacement is not tracked as an allocation yet:
 		// reverse the replacement before the ask goes
 		if ask := app.GetAllocationAsk(allocationKey); ask != nil && !ask.IsPlaceholder() && ask.HasRelease() {
